@@ -5,6 +5,7 @@ import AriesVerif.C13.Interleave
 #print axioms C13.no_write_under_read_lock
 #print axioms C13.inventory_covers
 #print axioms C13.multi_step_in_one_section
+#print axioms C13.no_recursive_lock
 #print axioms Lin.validate_sound
 #print axioms Interleave.stepLocked_le_one
 #print axioms Interleave.locked_at_most_one
